@@ -1,6 +1,6 @@
 """writes the prompts given to the independent sub-agents that produce seeded property-breaking changes
 (DESIGN sections 11-13). The sub-agent sees the property text, its own scratch worktree and nothing of /verif.
-usage: mutprompt.py <base dir, e.g. /tmp/mut3> [4]"""
+usage: mutprompt.py <base dir, e.g. /tmp/mut3> [4|5]"""
 import json
 import sys
 
@@ -39,6 +39,10 @@ if __name__ == "__main__":
     base = sys.argv[1].rstrip("/")
     if len(sys.argv) > 2 and sys.argv[2] == "4":  # wave 4: other places than the two hot functions
         T = T.replace(T[T.index("This library has already been hardened"):T.index("Also write a demonstration")], HINT4)
+    if len(sys.argv) > 2 and sys.argv[2] == "5":  # wave 5: later clauses of the statement, other families of change
+        import os
+        hint5 = open(os.path.join(os.path.dirname(os.path.abspath(__file__)), "mutprompt_hint5.txt")).read()
+        T = T.replace(T[T.index("This library has already been hardened"):T.index("Also write a demonstration")], hint5)
     for l in open('/verif/properties.jsonl'):
         p = json.loads(l)
         i = p['id']
